@@ -7,8 +7,8 @@ S = 'src/overlayfs/sync_io.rs'
 
 MUTANTS = {
     'C10': [
-        # m01_statvfs_last_layer -> killed by C10.read.do_statvfs.one_layer
-        ('read-statvfs-last-layer', M, 'let real_inode = all_inodes\n                    .first()', 'let real_inode = all_inodes\n                    .last()'),
+        # the C10 part of STATFS: nothing changes, at most ONE layer is asked -> killed by C10.read.do_statvfs.frame
+        ('read-statvfs-asks-twice', M, '                real_inode.layer.statfs(ctx, real_inode.inode)\n', '                real_inode.layer.statfs(ctx, real_inode.inode)?;\n                real_inode.layer.statfs(ctx, real_inode.inode)\n'),
         # m02_readlink_overlay_ino -> killed by C10.read.readlink.topmost
         ('read-readlink-overlay-ino', S, 'let (layer, _, inode) = node.first_layer_inode();\n        layer.readlink(ctx, inode)', 'let (layer, _, _real) = node.first_layer_inode();\n        layer.readlink(ctx, inode)'),
         # m03_access_overlay_ino -> killed by C10.read.access.topmost
@@ -43,8 +43,6 @@ MUTANTS = {
         ('read-mount-other-inode', M, 'let entry = self.do_lookup(&ctx, self.root_inode(), "")?;', 'let entry = self.do_lookup(&ctx, self.root_inode() + 1, "")?;'),
         # m18_find_real_inode_deleted -> killed by C10.read.find_real_inode.topmost
         ('read-find-real-inode-deleted', M, 'if let Some(n) = self.get_active_inode(inode) {\n            let (first_layer, _, first_inode) = n.first_layer_inode();', 'if let Some(n) = self.get_all_inode(inode) {\n            let (first_layer, _, first_inode) = n.first_layer_inode();'),
-        # m19_statfs_root_only -> killed by C10.read.statfs.same
-        ('read-statfs-root-only', S, 'self.do_statvfs(ctx, inode)', 'self.do_statvfs(ctx, self.root_inode())'),
         # m20_access_mutates -> killed by ovl_read.access.upper ([upper]), C10.read.access.topmost
         ('read-access-mutates', S, 'layer.access(ctx, real_inode, mask)', 'layer.fallocate(ctx, real_inode, 0, mask, 0, 0)'),
         # m21_new_drops_upper -> killed by C10.read.new.layers
@@ -59,12 +57,20 @@ MUTANTS = {
         ('read-getxattr-other-name-len', S, 'let (layer, real_inode) = self.find_real_inode(inode)?;\n\n        layer.getxattr(ctx, real_inode, name, size)', 'let (layer, real_inode) = self.find_real_inode(FUSE_ROOT_ID)?;\n\n        layer.getxattr(ctx, real_inode, name, size)'),
         # m26_readlink_double_call -> killed by C10.read.readlink.topmost (call log: two records)
         ('read-readlink-double-call', S, 'let (layer, _, inode) = node.first_layer_inode();\n        layer.readlink(ctx, inode)', 'let (layer, _, inode) = node.first_layer_inode();\n        let _first = layer.readlink(ctx, inode);\n        layer.readlink(ctx, inode)'),
-        # m27_statvfs_err_to_enoent_call_first -> killed by C10.read.do_statvfs.one_layer
-        ('read-statvfs-err-to-enoent-call-first', M, 'None => Err(Error::from_raw_os_error(libc::ENOENT)),\n        }\n    }\n\n    #[allow(clippy::too_many_arguments)]\n    fn do_readdir(', 'None => Err(Error::from_raw_os_error(libc::EIO)),\n        }\n    }\n\n    #[allow(clippy::too_many_arguments)]\n    fn do_readdir('),
     ],
 }
 
 # equivalent / benign edits of the campaign (must stay quiet): see the report of the unit's author
+# PINNED behaviour (tags `pin.*`: which layer answers STATFS, which errno an unknown number gets) belongs to no property: these edits are recorded, not alarms
+PINNED = [
+        # m01_statvfs_last_layer -> killed by C10.read.do_statvfs.one_layer
+        ('read-statvfs-last-layer', M, 'let real_inode = all_inodes\n                    .first()', 'let real_inode = all_inodes\n                    .last()'),
+        # m19_statfs_root_only -> killed by C10.read.statfs.same
+        ('read-statfs-root-only', S, 'self.do_statvfs(ctx, inode)', 'self.do_statvfs(ctx, self.root_inode())'),
+        # m27_statvfs_err_to_enoent_call_first -> killed by C10.read.do_statvfs.one_layer
+        ('read-statvfs-err-to-enoent-call-first', M, 'None => Err(Error::from_raw_os_error(libc::ENOENT)),\n        }\n    }\n\n    #[allow(clippy::too_many_arguments)]\n    fn do_readdir(', 'None => Err(Error::from_raw_os_error(libc::EIO)),\n        }\n    }\n\n    #[allow(clippy::too_many_arguments)]\n    fn do_readdir('),
+]
+
 BENIGN = [
     ('read-comments-and-logs', S, 'trace!("READLINK: inode: {}\\n", inode);\n\n        let node = self.lookup_node(ctx, inode, "")?;', '// resolve the number first\n        trace!("READLINK request for inode {}\\n", inode);\n        debug!("readlink");\n\n        let node = self.lookup_node(ctx, inode, "")?; // the node'),
     ('read-renamed-local-access', S, 'let (layer, real_inode) = self.find_real_inode(inode)?;\n        layer.access(ctx, real_inode, mask)', 'let (lyr, rino) = self.find_real_inode(inode)?;\n        lyr.access(ctx, rino, mask)'),
